@@ -1348,7 +1348,7 @@ fn exec(out: &mut Out, se: &mut Sess, cfg: &Cfg, line: &str) -> (String, String,
                         }
                         (line.to_string(), format!("{} {}", idx, if h.is_connected() { "T" } else { "F" }), true)
                     } else {
-                        (line.to_string(), format!("{} {}", idx, format!("{:?}", h).replace(' ', "")), true)
+                        (line.to_string(), format!("{} {}|{}", idx, format!("{:?}", h).replace(' ', ""), h.peer_id()), true)
                     }
                 }
             }
